@@ -69,6 +69,7 @@ static int vf_read_from(FILE *f, char *buf, size_t max_size);
 static void vf_eof_body(int id);
 static int vf_eof_choice(void);
 static void vf_eof_did_pop(int has_current);
+static void vf_eof_switch_saved(void);
 static int vf_eof_new_yyin(void);
 static int vf_action_push(void);
 static int vf_action_src(void);
